@@ -17,7 +17,7 @@ for e in d["known"]:
     if e["id"] in OPS:
         kind, spec, ops = OPS[e["id"]]
         if kind == "orbit":
-            e["replay_values"] = [0, 0, spec] + [o.ALPHABET.index(x) + 1 for x in ops] + [0]
+            e["replay_values"] = [0, 0, spec, 0] + [o.ALPHABET.index(x) + 1 for x in ops] + [0]
         else:
             e["replay_values"] = [1, 0, 0, 0, 0, 0, 0] + [c.ALPHABET.index(x) + 1 for x in ops] + [0]
         e["replay_ops"] = [list(x) for x in ops]
